@@ -40,7 +40,7 @@ class CallMixin:
                 self.event("p_read", index=nm[attr], name=attr)
                 return base.values[nm[attr]]
             self.event("p_no_symbol", production=str(base.production), name=attr, valid=sorted(nm))
-            self.may_raise("builtins.AttributeError", f"p.{attr}")
+            self.may_raise("builtins.AttributeError", f"p.{attr}", definite=True)
             raise _Raise(self.make_exc("builtins.AttributeError"), self.cur_where)
         if isinstance(base, RefV):
             return self.ref_attr(base, attr)
@@ -181,7 +181,7 @@ class CallMixin:
             self.cond(f"kind({node.path}) in", tuple(ks))
         if sig == ("missing",):
             self.event("attr_missing", node=node.path, attr=attr, kinds=tuple(ks))
-            self.may_raise("builtins.AttributeError", f"{node.path}.{attr} on {','.join(ks)}")
+            self.may_raise("builtins.AttributeError", f"{node.path}.{attr} on {','.join(ks)}", definite=True)
             raise _Raise(self.make_exc("builtins.AttributeError"), self.cur_where)
         if sig == ("prop",):
             self.event("node_prop", node=node.path, attr=attr, kinds=tuple(ks))
@@ -229,7 +229,7 @@ class CallMixin:
                     return self.call_function(r[0].module, r[1], [node], {}, r[0].qual)
                 return BoundV(node, r[0].qual, r[1], r[0].module)
         self.event("attr_missing", node=_describe(node), attr=attr, kinds=(kind,))
-        self.may_raise("builtins.AttributeError", f"{kind}.{attr}")
+        self.may_raise("builtins.AttributeError", f"{kind}.{attr}", definite=True)
         raise _Raise(self.make_exc("builtins.AttributeError"), self.cur_where)
 
     def typeof(self, v: V) -> V:
@@ -413,6 +413,7 @@ class CallMixin:
                 self.force_single(n)
                 return self.call_v(self.typeof(n), args, kwargs, module, node, env)
         self.event("extcall", func=func, args=args, kwargs=dict(kwargs))
+        self.external_may_raise(f"call {_describe(func)}")
         return Sym("call", func, tuple(args), _kw(kwargs))
 
     def call_summarised(self, q: str, func: FuncV, args: List[V]) -> V:
@@ -513,6 +514,7 @@ class CallMixin:
             if kind in self.schema.classes:
                 return PyTuple([Sym("fieldobj", f.name) for f in self.schema.classes[kind].fields])
         self.event("extcall", func=func, args=args, kwargs=dict(kwargs))
+        self.external_may_raise(f"call {func.qual}")
         return Sym("call", func, tuple(args), _kw(kwargs))
 
     def construct_node(self, kind: str, args, kwargs, module, node) -> V:
@@ -531,7 +533,7 @@ class CallMixin:
                 flat.append(a)
         if len(flat) > len(names):
             self.event("node_ctor_arity", kind=kind, given=len(flat), fields=len(names))
-            self.may_raise("builtins.TypeError", f"{kind}() takes {len(names)} fields")
+            self.may_raise("builtins.TypeError", f"{kind}() takes {len(names)} fields", definite=True)
             raise _Raise(self.make_exc("builtins.TypeError"), self.cur_where)
         for n, a in zip(names, flat):
             fields[n] = a
@@ -540,7 +542,7 @@ class CallMixin:
                 continue
             if k not in names or k in fields:
                 self.event("node_ctor_arity", kind=kind, bad_kw=k)
-                self.may_raise("builtins.TypeError", f"{kind}({k}=)")
+                self.may_raise("builtins.TypeError", f"{kind}({k}=)", definite=True)
                 raise _Raise(self.make_exc("builtins.TypeError"), self.cur_where)
             fields[k] = v
         for f in nc.fields:
@@ -549,7 +551,7 @@ class CallMixin:
                     fields[f.name] = Const(()) if f.shape == "tuple_scalar" else Sym("default", kind, f.name)
                 else:
                     self.event("node_ctor_arity", kind=kind, missing=f.name)
-                    self.may_raise("builtins.TypeError", f"{kind}() missing {f.name}")
+                    self.may_raise("builtins.TypeError", f"{kind}() missing {f.name}", definite=True)
                     raise _Raise(self.make_exc("builtins.TypeError"), self.cur_where)
         fields = {n: fields[n] for n in names}
         nn = NewNode(kind, fields, self.cur_where)
@@ -605,7 +607,7 @@ class CallMixin:
             if isinstance(v, PSlice):
                 return Const(len(v.values))
             if isinstance(v, (NodeV, NewNode)):
-                self.may_raise("builtins.TypeError", f"len({_describe(v)})")
+                self.may_raise("builtins.TypeError", f"len({_describe(v)})", definite=True)
                 raise _Raise(self.make_exc("builtins.TypeError"), self.cur_where)
             return Sym("len", v, hint="int")
         if name == "str":
@@ -629,7 +631,7 @@ class CallMixin:
                 try:
                     return Const(int(v.v) if name == "int" else float(v.v))
                 except Exception:
-                    self.may_raise("builtins.ValueError", f"{name}({v.v!r})")
+                    self.may_raise("builtins.ValueError", f"{name}({v.v!r})", definite=True)
                     raise _Raise(self.make_exc("builtins.ValueError"), self.cur_where)
             self.may_raise("builtins.ValueError", f"{name}({_describe(v)})")
             return Sym("call", RefV("builtins." + name), (v,), (), hint="int" if name == "int" else None)
@@ -944,12 +946,12 @@ class CallMixin:
             idx = a[0].v if a and isinstance(a[0], Const) else -1
             if isinstance(base, PyList) and not base.loop_parts and not getattr(base, "_minextra", 0):
                 if not base.items:
-                    self.may_raise("builtins.IndexError", "pop from empty list")
+                    self.may_raise("builtins.IndexError", "pop from empty list", definite=True)
                     raise _Raise(self.make_exc("builtins.IndexError"), self.cur_where)
                 try:
                     return base.items.pop(idx)
                 except IndexError:
-                    self.may_raise("builtins.IndexError", f"pop({idx})")
+                    self.may_raise("builtins.IndexError", f"pop({idx})", definite=True)
                     raise _Raise(self.make_exc("builtins.IndexError"), self.cur_where)
             if isinstance(base, PyList):
                 base = self._to_abs(base)
